@@ -49,12 +49,12 @@ Definition sg_inv (p : px) : px := mkpx (pa p) (b8 (pr p + pg p)) (pg p) (b8 (pb
 
 Lemma sg_inv_fwd p : wf_px p -> sg_inv (sg_fwd p) = p.
 Proof.
-  destruct p as [a r g b]. unfold wf_px, chan_ok, sg_inv, sg_fwd, b8; cbn [pa pr pg pb].
-  intros (Ha & Hr & Hg & Hb). f_equal; lia.
+  destruct p as [a r g b]. unfold wf_px, chan_ok, sg_inv, sg_fwd; cbn [pa pr pg pb].
+  rewrite !b8_mod. intros (Ha & Hr & Hg & Hb). f_equal; lia.
 Qed.
 
 Lemma sg_inv_wf p : wf_px p -> wf_px (sg_inv p).
-Proof. unfold wf_px, chan_ok, sg_inv, b8; cbn [pa pr pg pb]. lia. Qed.
+Proof. unfold wf_px, chan_ok, sg_inv; cbn [pa pr pg pb]. rewrite !b8_mod. lia. Qed.
 
 Definition subtract_green_fwd (img : list px) : list px := map sg_fwd img.
 Definition subtract_green_inv (img : list px) : list px := map sg_inv img.
@@ -88,14 +88,14 @@ Proof.
   destruct p as [a r g b]. unfold wf_px, chan_ok, cc_inv, cc_fwd; cbn [pa pr pg pb].
   intros (Ha & Hr & Hg & Hb).
   generalize (color_delta (pb m) g) as d1. generalize (color_delta (pg m) g) as d2. intros d2 d1.
-  assert (E : b8 (b8 (r - d1) + d1) = r) by (unfold b8; lia).
+  assert (E : b8 (b8 (r - d1) + d1) = r) by (rewrite !b8_mod; lia).
   rewrite E.
   generalize (color_delta (pr m) r) as d3. intros d3.
-  f_equal. unfold b8; lia.
+  f_equal. rewrite !b8_mod; lia.
 Qed.
 
 Lemma cc_inv_wf m p : wf_px p -> wf_px (cc_inv m p).
-Proof. unfold wf_px, chan_ok, cc_inv, b8; cbn [pa pr pg pb]. lia. Qed.
+Proof. unfold wf_px, chan_ok, cc_inv; cbn [pa pr pg pb]. rewrite !b8_mod. lia. Qed.
 
 Section CrossColor.
   (** [mult x y] = the multiplier pixel of the tile containing (x, y). *)
@@ -156,9 +156,10 @@ Section Predictor.
   (** [mode_at x y] = prediction mode of the tile containing (x, y). *)
   Variable mode_at : Z -> Z -> Z.
   Variable w : Z.
+  Variable wn : nat.      (* the width again, as the list offset of T/TR/TL; the decoder passes [Z.to_nat w] *)
 
   Definition pred_at (x y : Z) (acc : list px) : px :=
-    pred_px (Z.to_nat w) (mode_at x y) x y acc.
+    pred_px wn (mode_at x y) x y acc.
 
   (** Forward: residual = pixel - prediction from the *original* neighbours. *)
   Fixpoint pred_fwd_from (x y : Z) (acc : list px) (l : list px) : list px :=
@@ -201,9 +202,9 @@ Section Predictor.
   Qed.
 End Predictor.
 
-(** Tile lookup used by the decoder: the data image has [subsample w bits]
-    columns; the mode is the green channel of the tile's pixel. *)
-Definition tile_index (w bits x y : Z) : Z := (y / 2 ^ bits) * subsample w bits + x / 2 ^ bits.
+(** Tile lookup used by the decoder: the data image has [tw = subsample w bits]
+    columns; the tile of (x, y) is (x >> bits, y >> bits). *)
+Definition tile_index (tw bits x y : Z) : Z := Z.shiftr y bits * tw + Z.shiftr x bits.
 
 (* ------------------------------------------------------------------ *)
 (** * Colour indexing with pixel packing *)
